@@ -22,6 +22,9 @@ type Build = Box<dyn Fn(&Names, Vec<Expr>) -> Expr + Send + Sync>;
 
 pub struct Names(Cell<u32>);
 impl Names {
+    pub fn new_at(n: u32) -> Self {
+        Names(Cell::new(n))
+    }
     pub fn fresh(&self, p: &str) -> String {
         let n = self.0.get();
         self.0.set(n + 1);
